@@ -1,93 +1,113 @@
 (* C29 — History navigation visits matching commands newest-first, then back.
    Property theorems only; every proof is [exact <lemma>].
 
-   Specification (model/C29.v): the session's view = commands stored before the
-   session started ++ the session's own commands at cursor creation; the visit
-   list = the view's commands with the prefix, newest first, de-duplicated to the
-   first (most recent) occurrence of each text when asked; a cursor is a position
-   in that list, saturating at "past the newest end" (-1) and "past the oldest
-   end" (length); Get reports end of history at both.  [check_C29] demands exactly
-   [pos_run] of the observed walk; it is evaluated on every observation of
-   histutil.NewHybridStore / NewDedupCursor.
+   Model (model/C29.v): memStoreCursor, dbStoreCursor over the sequential store
+   specification of C24 with the upper bound frozen at session start,
+   hybridStoreCursor (hand-off between session and stored part), dedupCursor
+   (stack).  [scenario pre mid p dedup w]: the store operations [pre] before the
+   session, NewHybridStore, the additions [mid] (by this session through the
+   hybrid store, or by other sessions directly to the database) before the cursor
+   is created with prefix [p] (wrapped by NewDedupCursor when [dedup]), then the
+   walk [w]: each step = the additions (by this or other sessions) that happen
+   before it, and Prev / Next / nothing; the result lists Get after every step.
 
-   Proved here for all inputs: the facts about the specification that make it
-   say what the property says, the refinement of the specification by the
-   in-memory cursor for every walk (the whole navigation when there is no
-   database, histutil.NewHybridStore(nil), and the session half of the hybrid
-   cursor), and that additions by other sessions do not change a backward step
-   of the database cursor.
+   Specification: [session_view pre mid] = the commands in the database when the
+   session started (numbers below the frozen upper bound) ++ the session's own
+   commands at cursor creation; [visit_list view p dedup] = the view's commands
+   with the prefix, newest first, reduced to the first (most recent) occurrence of
+   each text when [dedup]; a cursor is a position in it saturating at both ends
+   ([pos_run]).
 
-   NOT proved (time): the planned full-strength statements over the composed
-   model, for every database state db_i that extends the session-start state by
-   additions numbered >= upper, every prefix and every walk w:
-     C29_walk_back_visits_matches_newest_first / C29_forward_retraces /
-     C29_end_of_history_both_ends / C29_concurrent_adds_invisible :
-       scenario pre mid p false w = pos_run (visit_list (stored ++ session) p false) (-1) (map snd w)
-     C29_dedup_first_occurrence_only :
-       scenario pre mid p true w = pos_run (visit_list (stored ++ session) p true) (-1) (map snd w)
-   They need the simulation lemmas for dbStoreCursor (over sp_prev/sp_next of the
-   C24 specification), the hybrid hand-off and the dedup stack; the composed model
-   is compared with the specification and with the implementation on every run
-   instead.  The statements below carry the suffix _partial where they are the
-   restriction of a planned theorem. *)
-From verif Require Import lib.Base model.C24_F64 model.C24_StoreSpec model.C29 proofs.C29_proofs.
+   All theorems hold for every stored history, all additions by this and other
+   sessions before and during the walk, every prefix and every walk.  The one
+   hypothesis bounds the sequence numbers by 2^63 (Go int). *)
+From verif Require Import lib.Base model.C24_F64 model.C24_StoreSpec model.C29
+  proofs.C29_proofs proofs.C29_sim.
 Open Scope Z_scope.
 
-(* Every walk (any sequence of Prev/Next) of a fresh in-memory cursor over any
-   command list returns exactly what the specification returns. *)
-Theorem C29_mem_walk_refines_spec : forall cmds p ms,
-  mem_run (mem_cursor cmds p) ms = pos_run (visit_list cmds p false) (-1) ms.
-Proof. exact mem_cursor_walk. Qed.
-Print Assumptions C29_mem_walk_refines_spec.
+(* The composed model refines the specification: every walk, with or without
+   de-duplication, under every interleaving of additions, returns exactly what
+   the position cursor over the visit list of the session's view returns. *)
+Theorem C29_walk_refines_spec : forall pre mid p dedup w,
+  (N.of_nat (length pre) + N.of_nat (length mid) + N.of_nat (evcount w) + 2 < two63)%N ->
+  scenario pre mid p dedup w
+  = pos_run (visit_list (session_view pre mid) p dedup) (-1) (map snd w).
+Proof. exact scenario_refines_spec. Qed.
+Print Assumptions C29_walk_refines_spec.
 
-(* k steps back visit the k newest matching commands, newest first
-   (in-memory cursor; full statement for the hybrid cursor: see above). *)
-Theorem C29_walk_back_visits_matches_newest_first_partial : forall cmds p k,
-  (k <= length (filter (hmatch p) cmds))%nat ->
-  mem_run (mem_cursor cmds p) (repeat MPrev k)
-  = map OCmd (firstn k (rev (filter (hmatch p) cmds))).
-Proof. exact mem_walk_back. Qed.
-Print Assumptions C29_walk_back_visits_matches_newest_first_partial.
+(* k steps back return the k newest matching commands of the view, newest first
+   (whatever is added meanwhile). *)
+Theorem C29_walk_back_visits_matches_newest_first : forall pre mid p w,
+  (N.of_nat (length pre) + N.of_nat (length mid) + N.of_nat (evcount w) + 2 < two63)%N ->
+  forall k, map snd w = repeat MPrev k ->
+  (k <= length (filter (hmatch p) (session_view pre mid)))%nat ->
+  scenario pre mid p false w
+  = map OCmd (firstn k (rev (filter (hmatch p) (session_view pre mid)))).
+Proof. exact walk_back_newest_first. Qed.
+Print Assumptions C29_walk_back_visits_matches_newest_first.
 
-(* the same fact for the specification itself, which is what the oracle demands
-   of the hybrid and de-duplicating cursors *)
-Theorem C29_spec_walk_back : forall l k, (k <= length l)%nat ->
-  pos_run l (-1) (repeat MPrev k) = map OCmd (firstn k l).
-Proof. exact pos_walk_back. Qed.
-Print Assumptions C29_spec_walk_back.
+(* Whatever a walk returns is a matching command of the session's view: commands
+   added by other sessions after the session start (and anything added after the
+   cursor was created) never appear, in any walk. *)
+Theorem C29_concurrent_adds_invisible : forall pre mid p w,
+  (N.of_nat (length pre) + N.of_nat (length mid) + N.of_nat (evcount w) + 2 < two63)%N ->
+  forall dedup c, In (OCmd c) (scenario pre mid p dedup w) ->
+  In c (session_view pre mid) /\ hmatch p c = true.
+Proof. exact concurrent_adds_invisible. Qed.
+Print Assumptions C29_concurrent_adds_invisible.
 
-(* A step forward after a step back returns to the entry left (positions of the
-   specification; by C29_mem_walk_refines_spec also of the in-memory cursor). *)
-Theorem C29_forward_retraces_partial : forall n k, -1 <= k < n ->
-  pos_move n MNext (pos_move n MPrev k) = k.
-Proof. exact pos_forward_retraces. Qed.
-Print Assumptions C29_forward_retraces_partial.
+(* With de-duplication (the stack model), k steps back return the first k entries
+   of the newest-first list reduced to first occurrences ... *)
+Theorem C29_dedup_first_occurrence_only : forall pre mid p w,
+  (N.of_nat (length pre) + N.of_nat (length mid) + N.of_nat (evcount w) + 2 < two63)%N ->
+  forall k, map snd w = repeat MPrev k ->
+  (k <= length (dedup_first [] (rev (filter (hmatch p) (session_view pre mid)))))%nat ->
+  scenario pre mid p true w
+  = map OCmd (firstn k (dedup_first [] (rev (filter (hmatch p) (session_view pre mid))))).
+Proof. exact walk_back_dedup. Qed.
+Print Assumptions C29_dedup_first_occurrence_only.
 
-(* Both ends report end of history, and stepping further past an end stays there. *)
-Theorem C29_end_of_history_both_ends_partial : forall l,
-  (pos_get l (-1) = OEnd /\ pos_get l (Z.of_nat (length l)) = OEnd)
-  /\ (pos_move (Z.of_nat (length l)) MPrev (Z.of_nat (length l)) = Z.of_nat (length l)
-      /\ pos_move (Z.of_nat (length l)) MNext (-1) = -1).
-Proof. exact pos_ends. Qed.
-Print Assumptions C29_end_of_history_both_ends_partial.
-
-(* Commands appended to the database with numbers at or above the cursor's
-   position (as all additions after the session start are, the position never
-   exceeding the frozen upper bound) do not change a backward step. *)
-Theorem C29_concurrent_adds_invisible_partial : forall db later c,
-  (forall e, In e later -> (u64 (dc_seq c) <= fst e)%N) ->
-  db_prev (mkS (s_seq db) (s_log db ++ later) (s_dirs db)) c = db_prev db c.
-Proof. exact db_prev_ignores_later. Qed.
-Print Assumptions C29_concurrent_adds_invisible_partial.
-
-(* The de-duplicated visit list contains every text once, only entries of the
-   plain list, and for every entry of the plain list an entry with its text. *)
-Theorem C29_dedup_first_occurrence_only_partial : forall l,
+(* ... and that list has every text once, contains only entries of the plain
+   list, and has an entry for every text of the plain list ([dedup_first] keeps an
+   entry iff no earlier = more recent entry has its text). *)
+Theorem C29_dedup_list_first_occurrences : forall l,
   NoDup (map fst (dedup_first [] l))
   /\ (forall c, In c (dedup_first [] l) -> In c l)
   /\ (forall c, In c l -> exists c', In c' (dedup_first [] l) /\ fst c' = fst c).
 Proof. exact dedup_first_summary. Qed.
-Print Assumptions C29_dedup_first_occurrence_only_partial.
+Print Assumptions C29_dedup_list_first_occurrences.
+
+(* Walking forward retraces: after k steps back, j <= k steps forward return the
+   entries k-2, k-3, ..., 0 and then end of history at the newest end. *)
+Theorem C29_forward_retraces : forall pre mid p w,
+  (N.of_nat (length pre) + N.of_nat (length mid) + N.of_nat (evcount w) + 2 < two63)%N ->
+  forall dedup k j, map snd w = repeat MPrev k ++ repeat MNext j ->
+  (1 <= k <= length (visit_list (session_view pre mid) p dedup))%nat -> (j <= k)%nat ->
+  scenario pre mid p dedup w
+  = map OCmd (firstn k (visit_list (session_view pre mid) p dedup))
+    ++ firstn j (map OCmd (rev (firstn (k - 1) (visit_list (session_view pre mid) p dedup))) ++ [OEnd]).
+Proof. exact forward_retraces. Qed.
+Print Assumptions C29_forward_retraces.
+
+(* Stepping back past the oldest entry reports end of history and keeps
+   reporting it however often repeated; stepping forward at the newest end
+   likewise. *)
+Theorem C29_end_of_history_both_ends : forall pre mid p w,
+  (N.of_nat (length pre) + N.of_nat (length mid) + N.of_nat (evcount w) + 2 < two63)%N ->
+  forall dedup j,
+  (map snd w = repeat MPrev (length (visit_list (session_view pre mid) p dedup) + j) ->
+   scenario pre mid p dedup w
+   = map OCmd (visit_list (session_view pre mid) p dedup) ++ repeat OEnd j)
+  /\ (map snd w = repeat MNext j -> scenario pre mid p dedup w = repeat OEnd j).
+Proof. exact end_of_history_both_ends. Qed.
+Print Assumptions C29_end_of_history_both_ends.
+
+(* Without a database (histutil.NewHybridStore(nil)) the store is the in-memory
+   one: every walk of its cursor refines the same specification. *)
+Theorem C29_mem_walk_refines_spec : forall cmds p ms,
+  mem_run (mem_cursor cmds p) ms = pos_run (visit_list cmds p false) (-1) ms.
+Proof. exact mem_cursor_walk. Qed.
+Print Assumptions C29_mem_walk_refines_spec.
 
 (* Non-vacuity: a stored history with a deletion, a session command, a command
    of another session added during the walk; prefix "e"; with de-duplication. *)
